@@ -8,8 +8,8 @@ BOUNDS = {'quick': dict(prime='+ - * with m=3 (t=1, PRSS on/off) over GF(7), GF(
                               '(division by cross-multiplication); / with m=3, t=1 over GF(5) without PRSS (masked reciprocal with dealer randomness, one retry); == / is_zero (Fermat power) over GF(p), p<=13; ',
                         binary='GF(2^k), k<=3 at m=1: + * & | ^ ~ to_bits from_bits', lifted='SecFld(2), SecFld(3) with m=3,t=1 (GF(4), GF(9)): + - and public multiples, outputs in the base field; '
                         'secret*secret in the thorough tier'),
-          'thorough': dict(prime='as quick plus GF(2^127-1), == over p<=23', binary='k<=4', lifted='as quick plus secret*secret products (resharing in the extension field)')}
-OUTSIDE = ['odd-characteristic extension fields of degree > 2', '== and ** with secret base over primes > 23 (the Fermat power a^(q-1) is not decided by the solver there)',
+          'thorough': dict(prime='as quick plus GF(2^127-1), == over p<=23, three-party division with PRSS', binary='k<=2 for all operations, k=3 for to_bits/from_bits and *', lifted='as quick plus secret*secret products over the lifted GF(4) (resharing in the extension field)')}
+OUTSIDE = ['odd-characteristic extension fields of degree > 2', 'secret*secret products in the lifted field GF(9) (the symbolic run stops at an engine artefact; concrete runs pass)', '== and ** with secret base over primes > 23 (the Fermat power a^(q-1) is not decided by the solver there)',
            'bit decomposition of prime-field elements: it is the composition convert -> secure-integer to_bits -> convert, whose parts are the subjects of C06, C01 (mod) and C30; the composed run exceeds the path budget',
            'secure field arrays (C37)', 'secret exponents', 'division with m>1 parties beyond GF(5), m=3 (PRSS variant in the thorough tier)', '/ and negative powers over primes > 13 (the retry test "a*r != 0" of the masked reciprocal is a nonlinear feasibility query per path)']
 ASSUMPTIONS = ['the multiplicative mask in reciprocal() is non-zero on the explored path (the code retries otherwise: one retry explored, further retries cut)',
@@ -313,11 +313,14 @@ def instances(tier):
         for what in ('bitwise', 'bits', 'mul', 'div'):
             if what == 'bitwise' and kk > 1 and q:
                 continue        # & and | through to_bits/schur_prod/from_bits: thorough tier only (carry-less products fork on every symbolic bit)
+            if kk == 3 and what in ('bitwise', 'div'):
+                continue        # did not finish within the thorough budget (GF(4) bitwise alone takes 20 minutes)
             out.append(Inst(f'binary[2^{kk},{what}]', h_binary, dict(k=kk, what=what), **T))
     for qq in ((2,) if q else (2, 3)):
         for prss in (True, False):
             out.append(Inst(f'lifted[q={qq},m=3,t=1,linear,prss={int(prss)}]', h_lifted, dict(m=3, t=1, q=qq, prog='linear', prss=prss), timeout=3000, max_paths=50000))
-            if not q:
+            if not q and qq == 2:      # GF(9): the symbolic run stops in the output conversion (degree assertion on a shadow polynomial whose leading
+                # coefficient is a symbolic zero -- an artefact of the engine: 18 concrete runs of the same harness on the real code pass); not claimed
                 out.append(Inst(f'lifted[q={qq},m=3,t=1,mul,prss={int(prss)}]', h_lifted, dict(m=3, t=1, q=qq, prog='mul', prss=prss), timeout=6000, max_paths=200000))
     out.append(Inst('twin_div_is_mul', h_twin, {}, twin=True, expect='violated'))
     return out
